@@ -38,6 +38,17 @@ func (sc *Scope) fail(f string, a ...interface{}) Val {
 	return Val{T: types.Typ[types.Bool], L: []string{"false"}}
 }
 
+// guarded: a scope whose side assumptions hold only when g does (on top of the scope's own reachability guard).
+func (sc *Scope) guarded(g string) *Scope {
+	c := *sc
+	r := sc.reach
+	if r == "" {
+		r = "true"
+	}
+	c.reach = and(r, g)
+	return &c
+}
+
 func (sc *Scope) child() *Scope {
 	c := *sc
 	c.names = map[string]Val{}
@@ -52,7 +63,8 @@ func boolVal(s string) Val { return Val{T: types.Typ[types.Bool], L: []string{s}
 func (sc *Scope) formula(f *Formula) Val {
 	switch f.Kind {
 	case 'i':
-		l, r := sc.formula(f.L), sc.formula(f.R)
+		l := sc.formula(f.L)
+		r := sc.guarded(sc.b(l)).formula(f.R)
 		return boolVal(imp(sc.b(l), sc.b(r)))
 	case 'q':
 		c := sc.child()
@@ -512,9 +524,13 @@ func derefOrSelf(t types.Type) types.Type {
 func (sc *Scope) binary(n *ast.BinaryExpr) Val {
 	switch n.Op {
 	case token.LAND:
-		return boolVal(and(sc.b(sc.expr(n.X)), sc.b(sc.expr(n.Y))))
+		// the right operand is evaluated under the guard of the left one: assumptions made while evaluating it (inlined
+		// method bodies, well-formedness of loaded values) must not leak onto paths where the left operand is false
+		l := sc.b(sc.expr(n.X))
+		return boolVal(and(l, sc.b(sc.guarded(l).expr(n.Y))))
 	case token.LOR:
-		return boolVal(or(sc.b(sc.expr(n.X)), sc.b(sc.expr(n.Y))))
+		l := sc.b(sc.expr(n.X))
+		return boolVal(or(l, sc.b(sc.guarded(not(l)).expr(n.Y))))
 	}
 	// string compared with a literal: content equality
 	if n.Op == token.EQL || n.Op == token.NEQ {
@@ -739,7 +755,7 @@ func (sc *Scope) call(n *ast.CallExpr) Val {
 				return sc.fail("ite arity")
 			}
 			c := sc.b(sc.expr(n.Args[0]))
-			a, b := sc.expr(n.Args[1]), sc.expr(n.Args[2])
+			a, b := sc.guarded(c).expr(n.Args[1]), sc.guarded(not(c)).expr(n.Args[2])
 			if a.C != nil {
 				a = sc.at_(a, b.T)
 			}
